@@ -65,6 +65,10 @@ C07.wordset  the characters that end an unquoted token (Symbol::is_word_char is
              character that ends a token but does not look special to the
              item categoriser would start the next token at the same place --
              no progress, the reader never returns.
+C07.eof      Zonefile::load, which reads its source to the end, makes sure the
+             text ends in a line feed: the last entry of a file without a
+             final newline is an entry, not a `short buffer` error (the reader
+             treats the end of the buffer as "more may come").
 C07.at       a free-standing `@` stands for the origin wherever a domain name is
              read (RFC 1035 5.1): EntryScanner::scan_name asks skip_at_token
              before it converts labels, as the owner position does.
@@ -102,6 +106,7 @@ def run(ctx):
     rule_utf8(ctx, F)
     rule_at(ctx, F)
     rule_wordset(ctx, F)
+    rule_eof(ctx, F)
     import c18
     c18.rule_tailcall(ctx, F)     # multi-token data: the converter is finished once, after the last token
     c18.rule_eofguard(ctx, F)     # ... and a converter past its end-of-data marker takes no further symbol
@@ -1020,3 +1025,29 @@ def rule_wordset(ctx, F):
            "Symbol::is_word_char ends a token at %s while SourceBuf::next_item treats %s specially: an octet in one set only "
            "(%s) ends a token without being consumed and starts the next one at the same position -- convert_entry never "
            "returns" % (_fmt(dl), _fmt(special), _fmt(dl ^ special)))
+
+
+def rule_eof(ctx, F):
+    R = "C07.eof"
+    ctx.floor(R, 1)
+    bs = [b for p, b in F.bodies.items() if re.match(r"^zonefile::inplace::Zonefile::load(::<.*>)?$", p)]
+    if not ctx.anchor(R, "Zonefile::load", len(bs) == 1):
+        return
+    b = bs[0]
+    cp = [bb for bb, tt in b.calls() if re.search(r"std::io::copy(::<.*>)?$|io::copy::copy(::<.*>)?$", tt["fn"] or "")]
+    if not ctx.anchor(R, "io::copy in Zonefile::load", len(cp) == 1, b.where()):
+        return
+    term = False
+    for bb, tt in b.calls():
+        if not b.dominates(cp[0], bb):
+            continue
+        fn = tt["fn"] or ""
+        if re.search(r"extend_from_slice$|put_u8$|BufMut::put_slice$|::push$|Write::write_all$", fn):
+            for a in tt["args"][1:]:
+                tm = deep_strip(b.term_of_operand(a))
+                if const_value(tm) == 10 or "\\n" in show(tm) or re.search(r"\b10\b", show(tm)):
+                    term = True
+    ctx.ob(R, b, "a source without a final line feed is given one", term,
+           "Zonefile::load copies its source into the buffer as it is: the reader only ends an entry at a line feed and reports "
+           "the end of the buffer as `short buffer` (more data may be appended), so the last record of a file that does not end "
+           "in a newline is lost with an error (`a A 192.0.2.1` at the end of the file: `1:14: short buffer`)", b.where(cp[0]))
